@@ -760,7 +760,8 @@ class TraceManager:
         removed = self.tracegraph.remove_with_descs(node)
         self.refgraph.remove_with_referred(removed)
         for node in removed:
-            node[OBJ].on_clear_trace(node[KEY])
+            if node_has_key(node):
+                node[OBJ].on_clear_trace(node[KEY])
 
     def clear_obj(self, obj):
         """Clear values and nodes of `obj` and their dependants."""
